@@ -89,20 +89,27 @@ Definition prefix_state (a S : store) : Prop :=
 Lemma prefix_state_rel a S : Rel a S -> prefix_state a S.
 Proof. intros [A B C]. split; [exact B|]. split; [apply seq_seqL; exact A | left; exact A]. Qed.
 
-(* ---------- log records below the replaying store's LSN counter ---------- *)
-Definition lsn_below (a : store) (L : list walentry) : Prop := Forall (fun w => w_lsn w < nextLSN a) L.
+(* ---------- log records below the replaying store's counters ---------- *)
+Definition lsn_below (a : store) (L : list walentry) : Prop :=
+  Forall (fun w => w_lsn w < nextLSN a /\ (w_op w = OpInsert -> w_cell w <= lastKey a)) L.
+
+Lemma lsn_below_mono a a' L : nextLSN a <= nextLSN a' -> lastKey a <= lastKey a' -> lsn_below a L -> lsn_below a' L.
+Proof.
+  intros H1 H2 H. eapply Forall_impl; [|exact H]. cbn. intros w [A B]. split; [lia|]. intros Ho. specialize (B Ho). lia.
+Qed.
 
 Lemma lsn_below_replay a ws a' L :
   replay a ws = RCont a' -> lsn_below a L -> lsn_below a' (L ++ ws).
 Proof.
-  intros Hr HL. destruct (replay_lsn _ _ _ Hr) as [Hle Hws]. apply Forall_app. split; [|exact Hws].
-  eapply Forall_impl; [|exact HL]. cbn. intros; lia.
+  intros Hr HL. destruct (replay_lsn _ _ _ Hr) as [Hle Hws]. destruct (replay_key _ _ _ Hr) as [Hke Hkw].
+  apply Forall_app. split; [apply (lsn_below_mono a); assumption|].
+  rewrite Forall_forall in *. intros w Hw. split; [apply Hws | apply Hkw]; exact Hw.
 Qed.
 
 Lemma loginv_transfer a S L : seq a S -> lsn_below a L -> LogInv S L -> LogInv a L.
 Proof.
   intros Hs Hb HL. unfold LogInv, lsn_below in *. rewrite Forall_forall in *. intros w Hw.
-  apply (rec_inert_seq a S w Hs); auto.
+  destruct (Hb w Hw) as [A B]. apply (rec_inert_seq a S w Hs); auto.
 Qed.
 
 (* one row insert, record by record *)
@@ -141,10 +148,7 @@ Proof.
         rewrite Hf2, (fclean_touch_forest pg key (lsn + 1) (upd_fun bs') _ _ Sf).
         rewrite touch_forest_twice by (apply upd_fun_key || apply upd_fun_idem). reflexivity.
     + apply (loginv_transfer ah _ _ (rel_seq _ _ HRh)).
-      * change [mkWal OpInsert lsn off k bs] with ([] ++ [mkWal OpInsert lsn off k bs]).
-        destruct (replay_one_lsn _ _ _ Hrep') as [A B]. apply Forall_app. split.
-        -- eapply Forall_impl; [|exact HLa]. cbn. intros; lia.
-        -- constructor; [exact A | constructor].
+      * apply (lsn_below_replay a [mkWal OpInsert lsn off k bs] ah L); [cbn [replay]; rewrite Hrep'; reflexivity | exact HLa].
       * destruct H1 as [G1 L1]. eapply Forall_impl; [|exact L1]. intros w Hw.
         apply (inert_touch_gen b1 pg key (upd_fun bs') lsn (nextLSN b1) w); auto; lia.
 Qed.
@@ -349,7 +353,9 @@ Theorem crash_in_log y st m j :
 Proof.
   intros (r & Hrep & Hseq & Gr & [Gm Lm]) Hd Hmv Hout.
   destruct (redo_stmt r (mem y) st m (mkRel _ _ Hseq Gr Gm) Hd Hmv Hout) as (_ & _ & _ & Hfl).
-  assert (HLr : lsn_below r (wal y)) by (apply (replay_lsn _ _ _ Hrep)).
+  assert (HLr : lsn_below r (wal y)).
+  { destruct (replay_lsn _ _ _ Hrep) as [_ A]. destruct (replay_key _ _ _ Hrep) as [_ B].
+    unfold lsn_below. rewrite Forall_forall in *. intros w Hw. split; [apply A | apply B]; exact Hw. }
   destruct (prefix_stmt (wal y) r (mem y) st m (mkRel _ _ Hseq Gr Gm) (conj Gm Lm) HLr Hd Hmv Hout j)
     as (a_j & Hr & (Gj & Lj & Dj) & HLj).
   cbn [step]. rewrite Hout, Hfl. cbn [is_ok]. unfold recover. cbn [disk wal].
